@@ -45,12 +45,12 @@ theorem tail_run (s : CfgSt) :
       = if s.notPresent.any (fun m => !m.isEmpty) then some none else some (some s) := by
   have a1 : cfgAtom s "any((m for m in not_present))" = some (s.notPresent.any (fun m => !m.isEmpty)) := rfl
   have a2 : cfgAtom s "for g in config['groups']" = some true := rfl
-  have s1 : cfgStep s "assign" "messages = [', '.join(p) + (f' in group {i}' if len(config['groups']) > 1 else '') for i, p in enumerate(not_present) if p]" = some (some s) := rfl
+  have s1 : cfgStep s "assign" "messages = [', '.join(p) + (f\" in group {i}\" if len(config['groups']) > 1 else '') for i, p in enumerate(not_present) if p]" = some (some s) := rfl
   have s2 : cfgStep s "assign" "msg = '\\n  and '.join(messages)" = some (some s) := rfl
   have s3 : cfgStep s "raise" "raise ValueError('Missing parameters: ' + msg)" = some none := rfl
   have s4 : cfgStep s "expr" "np.array(g['date']).astype('datetime64')" = some (some s) := rfl
   have e : Gen.load_config_seq.drop 15 = [
-    ([(true, "any((m for m in not_present))")], "assign", "messages = [', '.join(p) + (f' in group {i}' if len(config['groups']) > 1 else '') for i, p in enumerate(not_present) if p]"),
+    ([(true, "any((m for m in not_present))")], "assign", "messages = [', '.join(p) + (f\" in group {i}\" if len(config['groups']) > 1 else '') for i, p in enumerate(not_present) if p]"),
     ([(true, "any((m for m in not_present))")], "assign", "msg = '\\n  and '.join(messages)"),
     ([(true, "any((m for m in not_present))")], "raise", "raise ValueError('Missing parameters: ' + msg)"),
     ([(true, "for g in config['groups']")], "expr", "np.array(g['date']).astype('datetime64')"),
